@@ -1,6 +1,6 @@
 """C07 - navigation is history-independent.  Rules FUNNEL, DEP, BOUNDS, BIND."""
 import ast
-from ..core import AnalysisError, norm, dotted, call_name, walk_no_nested, is_self_attr
+from ..core import rel, AnalysisError, norm, dotted, call_name, walk_no_nested, is_self_attr
 from .. import flow
 from .listing_common import binding, listing_effects, internal_fns, SIMS
 
@@ -200,11 +200,16 @@ def rule_bounds(run):
         body = [s for s in fi.node.body if not (isinstance(s, ast.Expr) and isinstance(s.value, ast.Constant))]
         ok = len(body) == 3
         flag = None
+
+        def good_guard(t):
+            # index < rhs (next) / rhs < index (prev), strict, whichever way round it is written
+            r_ = rel(t)
+            if r_ is None or not r_[1]: return False
+            small, big = (r_[0], r_[2]) if cmp_op is ast.Lt else (r_[2], r_[0])
+            return dotted(small) in ('self.index', 'self._index') and norm(big) == rhs_txt
         if ok:
             a, i, r = body
-            ok = isinstance(a, ast.Assign) and isinstance(a.targets[0], ast.Name) and isinstance(a.value, ast.Compare) \
-                and dotted(a.value.left) in ('self.index', 'self._index') and isinstance(a.value.ops[0], cmp_op) \
-                and norm(a.value.comparators[0]) == rhs_txt
+            ok = isinstance(a, ast.Assign) and isinstance(a.targets[0], ast.Name) and good_guard(a.value)
             if ok:
                 flag = a.targets[0].id
                 ok = isinstance(i, ast.If) and isinstance(i.test, ast.Name) and i.test.id == flag and not i.orelse \
@@ -216,9 +221,9 @@ def rule_bounds(run):
         if ok: run.ok(key, where=fi.where())
         else:
             # shape not recognised: decide what we can - the comparison itself
-            cmps = [n for n in walk_no_nested(fi.node) if isinstance(n, ast.Compare) and
-                    dotted(n.left) in ('self.index', 'self._index')]
-            if len(cmps) == 1 and (not isinstance(cmps[0].ops[0], cmp_op) or norm(cmps[0].comparators[0]) != rhs_txt):
+            cmps = [n for n in walk_no_nested(fi.node) if isinstance(n, ast.Compare) and rel(n) is not None and
+                    any(dotted(x) in ('self.index', 'self._index') for x in (rel(n)[0], rel(n)[2]))]
+            if len(cmps) == 1 and not good_guard(cmps[0]):
                 run.violated(key, 'guard is `%s`, expected `index %s %s`: the reader can move past the end or refuse '
                              'a legal move' % (norm(cmps[0]), {ast.Lt: '<', ast.Gt: '>'}[cmp_op], rhs_txt),
                              where=fi.where(cmps[0]))
@@ -236,8 +241,10 @@ def rule_bounds(run):
             run.unknown(key, 'shape not recognised', where=fi.where()); return
         i1 = body[0]
         def is_cmp(t, op, idx):
-            return isinstance(t, ast.Compare) and isinstance(t.left, ast.Name) and t.left.id == p and \
-                isinstance(t.ops[0], op) and norm(t.comparators[0]) == 'self.%s[%s]' % (arr, idx)
+            r_ = rel(t)
+            if r_ is None or not r_[1]: return False
+            small, big = (r_[0], r_[2]) if op is ast.Lt else (r_[2], r_[0])      # p < arr[idx]  /  arr[idx] < p
+            return isinstance(small, ast.Name) and small.id == p and norm(big) == 'self.%s[%s]' % (arr, idx)
         def sets_index(stmts, val):
             return len(stmts) == 1 and isinstance(stmts[0], ast.Assign) and dotted(stmts[0].targets[0]) == 'self.index' \
                 and norm(stmts[0].value) == val
